@@ -115,9 +115,15 @@ class Ctx:
                     # a known finding pinned to specific failing inputs and their observed values: anything else is new
                     exp = k["cases"].get(f["signature"])
                     got = (f.get("payload") or {}).get(k.get("value_field", "defect"))
-                    if exp is not None and got is not None and abs(got - exp) <= k.get("rtol", 1e-4) * abs(exp):
-                        hit = k
-                        break
+                    if exp is not None and got is not None:
+                        band = k.get("ratio_band")  # for defect values that are round-off noise: the scenario is pinned, the value only to an order of magnitude
+                        if band is not None:
+                            same = exp != 0 and got / exp > 0 and band[0] <= got / exp <= band[1]
+                        else:
+                            same = abs(got - exp) <= k.get("rtol", 1e-4) * abs(exp)
+                        if same:
+                            hit = k
+                            break
                 elif fnmatch.fnmatchcase(f["signature"], k["signature"]):
                     hit = k
                     break
@@ -244,6 +250,26 @@ def _dump_state(ctx, path, complete):
     os.replace(tmp, path)
 
 
+def scan_assumptions():
+    """mechanical count, per contract / check module loaded by this run, of the places where something is assumed rather than proved:
+    path assumptions (`.assume(`: preconditions, contracts of callees and collaborators), trusted statements (`.trust(`) and callee contracts
+    (`call_contracts[`). A reader can compare these numbers between commits; the texts are in the modules themselves."""
+    out = {}
+    for name, mod in sorted(sys.modules.items()):
+        if not (name.startswith("contracts.") or name.startswith("checks.C")):
+            continue
+        f = getattr(mod, "__file__", None)
+        if not f or not os.path.exists(f):
+            continue
+        try:
+            with open(f) as fh:
+                src = fh.read()
+        except OSError:
+            continue
+        out[name] = {"assume": src.count(".assume("), "trust": src.count(".trust("), "callee_contracts": src.count("call_contracts["), "class_models": src.count("class_models[")}
+    return out
+
+
 def engine_selftest(ctx):
     """Differential test of the interpreter against CPython (tools/engine_selftest.py): run once per state of the engine sources and cached in the
     build directory; a disagreement makes every check an engine error (exit 3) - nothing a defective engine says is believed, and it is never a violation."""
@@ -303,6 +329,7 @@ def run_check(prop, tier, seed, fn):
         except Exception as e:  # a crash of the machinery is never a violation
             traceback.print_exc()
             ctx.engine_error("checker crashed: %r" % (e,))
+        ctx.extra["assumption_scan"] = scan_assumptions()
         return ctx.finish()
     os.makedirs(REPLAY_DIR, exist_ok=True)
     state_path = os.path.join(REPLAY_DIR, ".state_%s_%d.json" % (prop, os.getpid()))
@@ -318,6 +345,7 @@ def run_check(prop, tier, seed, fn):
             except Exception as e:  # a crash of the machinery is never a violation
                 traceback.print_exc()
                 ctx.engine_error("checker crashed: %r" % (e,))
+            ctx.extra["assumption_scan"] = scan_assumptions()
             _dump_state(ctx, state_path, True)
         except BaseException:  # noqa
             traceback.print_exc()
